@@ -26,24 +26,24 @@ import (
 
 // Config is the swarm configuration of one run (drawn from the tape head).
 type Config struct {
-	N          int  // validator nodes
-	NByz       int  // how many of them are Byzantine (harness actors)
-	Heights    int  // target heights to commit
-	IsTrie     bool // storage mode
-	UseWAL     bool // real file WAL on honest nodes
-	MaxEvents  int
-	Horizon    time.Duration // virtual time cap
-	GST        time.Duration // faults stop at this virtual time
-	DropPct    int           // message loss before GST (percent)
-	DupPct     int
-	MaxDelayMs int
-	Partition  bool
-	Reorder    bool          // messages of one link and channel may overtake each other before GST
-	PermissivePV bool // the validator key signs whatever the state machine asks (no double-sign guard): the discipline of the state machine itself is observed
-	LongStall  time.Duration // >0: every node isolated for this long (past the 15-minute recover timeout)
-	Crashes    bool
-	Skew       bool
-	PartSize   int
+	N            int  // validator nodes
+	NByz         int  // how many of them are Byzantine (harness actors)
+	Heights      int  // target heights to commit
+	IsTrie       bool // storage mode
+	UseWAL       bool // real file WAL on honest nodes
+	MaxEvents    int
+	Horizon      time.Duration // virtual time cap
+	GST          time.Duration // faults stop at this virtual time
+	DropPct      int           // message loss before GST (percent)
+	DupPct       int
+	MaxDelayMs   int
+	Partition    bool
+	Reorder      bool          // messages of one link and channel may overtake each other before GST
+	PermissivePV bool          // the validator key signs whatever the state machine asks (no double-sign guard): the discipline of the state machine itself is observed
+	LongStall    time.Duration // >0: every node isolated for this long (past the 15-minute recover timeout)
+	Crashes      bool
+	Skew         bool
+	PartSize     int
 
 	TimeoutPropose    int
 	TimeoutPrevote    int
@@ -246,8 +246,20 @@ func drawConfig(c *kernel.Ctx, mode Mode) Config {
 	// Byzantine validators: strictly less than 1/3 of the total power
 	if mode == ModeHostile {
 		cfg.MaxEvents *= 4 // hostile deliveries are events too
-		// one hostile peer holding a validator key of small power
-		cfg.Powers[cfg.N-1] = 1
+		// one hostile peer holding a validator key: minimal power in half of the
+		// runs, otherwise an ordinary share (< 1/3) so that it gets proposer turns
+		if t.Bool(1, 2) {
+			cfg.Powers[cfg.N-1] = 1
+		} else {
+			var sum int64
+			for _, p := range cfg.Powers[:cfg.N-1] {
+				sum += p
+			}
+			cfg.Powers[cfg.N-1] = sum / int64(cfg.N-1)
+			for 3*cfg.Powers[cfg.N-1] >= sum+cfg.Powers[cfg.N-1] && cfg.Powers[cfg.N-1] > 1 {
+				cfg.Powers[cfg.N-1]--
+			}
+		}
 		cfg.NByz = 1
 		cfg.ByzKinds = []string{"hostile"}
 		cfg.Crashes = false
